@@ -753,6 +753,11 @@ def any_layout(rng, arr, p=0.4):
     2-D array, or a reversed view of a reversed copy; contiguous with probability 1 - p"""
     import numpy as np
     arr = np.asarray(arr)
+    if arr.ndim == 1 and arr.size and arr.dtype.kind == "f" and bool(np.all(arr == np.round(arr))) and bool(np.all(np.abs(arr) < 2 ** 31)) \
+            and rng.random() < 0.5:
+        # whole numbers (levels in whole millimetres, `np.arange(-300, 200, 10)`, a column read with dtype=int) arrive as an
+        # integer array as often as not
+        arr = arr.astype(rng.choice(["int64", "int32"]))
     if arr.ndim != 1 or arr.size == 0 or rng.random() >= p:
         return arr
     kind = rng.choice(["strided", "column", "reversed"])
